@@ -896,9 +896,140 @@ def run_replay(path: str, out: hlib.RecWriter) -> None:
         run_samples(out, {})
 
 
+# =========================================================================== coverage of containers
+def _dup(xs) -> bool:
+    xs = [json.dumps(x, sort_keys=True) if not isinstance(x, str) else x for x in xs]
+    return len(xs) != len(set(xs))
+
+
+def _case_dup(xs) -> bool:
+    return len({x.casefold() for x in xs}) < len(set(xs))
+
+
+def _kv_shapes(flat: list) -> bool:
+    """An ordered multimap in all its shapes: a key repeated (same spelling, another case), a leaf
+    after a block of its name and a block after a leaf of its name, an empty block, 3 levels."""
+    names = [e[1] for e in flat]
+    empty = any(e[3] and (i + 1 == len(flat) or flat[i + 1][0] <= e[0]) for i, e in enumerate(flat))
+    leaf_after_block = any(a[3] and not b[3] and a[0] == b[0] and a[1].casefold() == b[1].casefold()
+                           for i, a in enumerate(flat) for b in flat[i + 1:])
+    block_after_leaf = any(not a[3] and b[3] and a[0] == b[0] and a[1].casefold() == b[1].casefold()
+                           for i, a in enumerate(flat) for b in flat[i + 1:])
+    return _dup(names) and _case_dup(names) and empty and leaf_after_block and block_after_leaf and max((e[0] for e in flat), default=0) >= 2
+
+
+def _events(p):
+    yield from p['events']
+    for a in p['actors']:
+        for c in a['channels']:
+            yield from c['events']
+
+
+def _names(items, key='name'):
+    return [x[key] for x in items]
+
+
+# (class, field) -> (formats whose cases must show it, predicate on a case projection) | reason for exemption
+CONTAINERS = {
+    ('Material', 'blocks'): (['vmt'], lambda p: _dup([b[0] for b in p['blocks']]) or any(_kv_shapes(b[1]) for b in p['blocks'])),
+    ('Material', 'blocks#shapes'): (['vmt'], lambda p: any(_kv_shapes(b[1]) for b in p['blocks'])),
+    ('Material', 'blocks#twice'): (['vmt'], lambda p: _dup([b[0] for b in p['blocks']]) and _case_dup([b[0] for b in p['blocks']])),
+    ('Material', 'proxies'): (['vmt'], lambda p: _dup([b[0] for b in p['proxies']]) and any(_kv_shapes(b[1]) for b in p['proxies'])),
+    ('Material', 'params'): 'a mapping with unique case-folded names (cases with several parameters exist)',
+    ('Sound', 'sounds'): (['snd'], lambda p: _dup(p['sounds']) and _case_dup(p['sounds'])),
+    ('Sound', '_stack_start'): (['snd'], lambda p: _kv_shapes(p['stacks'][0])),
+    ('Sound', '_stack_update'): (['snd'], lambda p: _dup([e[1] for e in p['stacks'][1]])),
+    ('Sound', '_stack_stop'): (['snd'], lambda p: _kv_shapes(p['stacks'][2])),
+    ('Scene', 'events'): (['vcd', 'bvcd'], lambda p: _dup(_names(p['events']))),
+    ('Scene', 'actors'): (['vcd', 'bvcd'], lambda p: _dup(_names(p['actors']))),
+    ('Scene', 'scale_settings'): 'a dict: keys are unique',
+    ('Scene', 'time_zoom_lookup'): 'neither scene format writes or reads it',
+    ('Actor', 'channels'): (['vcd', 'bvcd'], lambda p: any(_dup(_names(a['channels'])) and _case_dup(_names(a['channels'])) for a in p['actors'])),
+    ('Channel', 'events'): (['vcd', 'bvcd'], lambda p: any(_dup(_names(c['events'])) for a in p['actors'] for c in a['channels'])),
+    ('Event', 'relative_tags'): (['vcd', 'bvcd'], lambda p: any(_dup([t[0] for t in e['rel']]) and _case_dup([t[0] for t in e['rel']]) for e in _events(p))),
+    ('Event', 'timing_tags'): (['vcd', 'bvcd'], lambda p: any(_dup([t[0] for t in e['timing']]) for e in _events(p))),
+    ('Event', 'absolute_playback_tags'): (['vcd', 'bvcd'], lambda p: any(_dup([t[0] for t in e['absp']]) for e in _events(p))),
+    ('Event', 'absolute_shifted_tags'): (['vcd', 'bvcd'], lambda p: any(_dup([t[0] for t in e['abss']]) for e in _events(p))),
+    ('Event', 'flex_anim_tracks'): (['bvcd'], lambda p: any(_dup(_names(e['flex'])) for e in _events(p))),
+    ('Curve', 'ramp'): (['vcd', 'bvcd'], lambda p: any(_dup(e['ramp']['ramp']) for e in _events(p))),
+    ('FlexAnimTrack', 'mag_track'): (['bvcd'], lambda p: any(_dup(f['mag']) for e in _events(p) for f in e['flex'])),
+    ('FlexAnimTrack', 'dir_track'): (['bvcd'], lambda p: any(_dup(f['dir']) for e in _events(p) for f in e['flex'])),
+    ('Entry', 'sounds'): 'derived: the sorted set of the scene\'s sounds',
+    ('Entry', '_data'): 'the scene itself, or its bytes with the shared string pool',
+    ('Particle', 'options'): 'a dict: keys are unique', ('Operator', 'options'): 'a dict: keys are unique',
+    **{('Particle', kind): (['pcf'], (lambda kind: lambda p: any(_dup(_names(s_[kind])) and _case_dup(_names(s_[kind])) for s_ in p['systems']))(kind))
+       for kind in OP_KINDS},
+    ('Particle', 'children'): (['pcf'], lambda p: any(_dup(s_['children']) for s_ in p['systems'])),
+    ('Mesh', 'bones'): 'a dict: bone names are unique',
+    ('Mesh', 'animation'): (['smd'], lambda p: any(_dup([row[0] for row in fr[1]]) for fr in p['frames'])),
+    ('Mesh', 'triangles'): (['smd'], lambda p: _dup([t[0] for t in p['tris']])),
+    ('Vertex', 'links'): (['smd'], lambda p: any(_dup([l[0] for l in v[8]]) for t in p['tris'] for v in t[1])),
+    ('cmdseq', 'commands'): (['cmdseq'], lambda p: any(_dup(s_['cmds']) for s_ in p['seqs'])),
+}
+CONTAINER_WORDS = ('list', 'dict', 'Keyvalues', 'Iterable', 'Mapping', 'Sequence', 'MutableMapping')
+
+
+def container_fields() -> list:
+    """Reflectively: every field of the value classes whose annotation mentions a container type."""
+    import inspect
+    classes = [vmt.Material, sndscript.Sound, choreo.Scene, choreo.Actor, choreo.Channel, choreo.Event, choreo.GestureEvent,
+               choreo.LoopEvent, choreo.SpeakEvent, choreo.Curve, choreo.FlexAnimTrack, choreo.Entry, choreo.Tag,
+               particles.Particle, particles.Operator, particles.Child, smd.Mesh, smd.Vertex, smd.Triangle, smd.Bone,
+               smd.BoneFrame, cmdseq.Command]
+    found = set()
+    for cls in classes:
+        notes: dict = {}
+        for klass in reversed(cls.__mro__):
+            notes.update(getattr(klass, '__annotations__', {}))
+        init = getattr(cls, '__init__', None)
+        if init is not None and not getattr(cls, '__attrs_attrs__', None):
+            notes.update({k: v for k, v in getattr(init, '__annotations__', {}).items() if k != 'return'})
+        owner = {choreo.GestureEvent: 'Event', choreo.LoopEvent: 'Event', choreo.SpeakEvent: 'Event'}.get(cls, cls.__name__)
+        for name, note in notes.items():
+            text = note if isinstance(note, str) else getattr(note, '__name__', '') + ' ' + str(note)
+            if 'ClassVar' in text or 'Callable' in text:
+                continue
+            if any(word in text for word in CONTAINER_WORDS):
+                found.add((owner, name))
+    found.add(('cmdseq', 'commands'))     # the value of the format is itself dict[str, list[Command]]
+    return sorted(found)
+
+
+def run_cover(case_files: list, out_path: str) -> None:
+    by_fmt: dict = {}
+    for path in case_files:
+        for case in json.load(open(path)):
+            by_fmt.setdefault(case['fmt'], []).append(case['v'])
+    fields = container_fields()
+    report = {'fields': [], 'unknown': [], 'uncovered': [], 'exempt': []}
+    wanted = dict(CONTAINERS)
+    for key in fields:
+        if key not in wanted:
+            report['unknown'].append(list(key))
+    for key, rule in sorted(wanted.items()):
+        base = (key[0], key[1].split('#')[0])
+        if base not in fields and base != ('cmdseq', 'commands'):
+            report['unknown'].append(['not a container field any more'] + list(key))
+            continue
+        if isinstance(rule, str):
+            report['exempt'].append([key[0], key[1], rule])
+            continue
+        fmts, pred = rule
+        n = sum(1 for f in fmts for v in by_fmt.get(f, []) if pred(v))
+        report['fields'].append([key[0], key[1], n])
+        if n == 0:
+            report['uncovered'].append(list(key))
+    with open(out_path, 'w') as f:
+        json.dump(report, f)
+    print(json.dumps({'fields': len(report['fields']), 'unknown': report['unknown'], 'uncovered': report['uncovered']}))
+
+
 def main() -> None:
     mode = sys.argv[1]
     stats: dict = {}
+    if mode == 'cover':
+        run_cover(sys.argv[2:-1], sys.argv[-1])
+        return
     out = hlib.RecWriter(sys.argv[-1])
     if mode == 'cases':
         run_cases(sys.argv[2], out, stats)
